@@ -1,4 +1,151 @@
 package sym
 
+import (
+	"fmt"
+	"strconv"
+
+	"golang.org/x/tools/go/ssa"
+)
+
+// ---------------------------------------------------------------------------
+// time: an instant is (wall, ext, loc) as in the real struct; its calendar fields are
+// arbitrary values in their documented ranges, fixed per instant (uninterpreted functions of
+// the instant). Durations are executed from the real SSA.
+
+func (it *Interp) timeKey(t *Agg) string {
+	w, _ := t.Cells[0].(*Term)
+	e, _ := t.Cells[1].(*Term)
+	return fmt.Sprintf("T%d_%d", w.ID, e.ID)
+}
+
+func (it *Interp) freshTime(name string) *Agg {
+	return &Agg{Cells: []Value{it.symVar(name+".wall", 64), it.symVar(name+".ext", 64), &Ptr{}}}
+}
+
+// timeField returns the calendar field of an instant, constrained to [lo,hi].
+func (it *Interp) timeField(t *Agg, field string, lo, hi uint64) *Term {
+	name := it.timeKey(t) + "." + field
+	if it.Concrete != nil {
+		v := it.Concrete[name]
+		if v < lo {
+			v = lo
+		}
+		if v > hi {
+			v = hi
+		}
+		return it.c64(int64(v))
+	}
+	v := it.St.Var(name, BV(64))
+	it.pushPC(it.St.And(it.St.Ule(it.c64(int64(lo)), v), it.St.Ule(v, it.c64(int64(hi)))))
+	return v
+}
+
+var timeFields = map[string][2]uint64{"month": {1, 12}, "day": {1, 31}, "hour": {0, 23}, "minute": {0, 59}, "second": {0, 59}, "year2": {0, 99}}
+
 func registerMoreStubs(it *Interp) {
+	s := it.stubs
+	s["time.Now"] = func(it *Interp, fr *frame, cc *ssa.CallCommon, a []Value) Value {
+		it.freshN["now"]++
+		return it.freshTime(fmt.Sprintf("now%d", it.freshN["now"]))
+	}
+	field := func(f string) StubFn {
+		return func(it *Interp, fr *frame, cc *ssa.CallCommon, a []Value) Value {
+			r := timeFields[f]
+			return it.timeField(a[0].(*Agg), f, r[0], r[1])
+		}
+	}
+	s["(time.Time).Month"] = field("month")
+	s["(time.Time).Day"] = field("day")
+	s["(time.Time).Hour"] = field("hour")
+	s["(time.Time).Minute"] = field("minute")
+	s["(time.Time).Second"] = field("second")
+	s["(time.Time).UTC"] = func(it *Interp, fr *frame, cc *ssa.CallCommon, a []Value) Value { return a[0] }
+	s["(time.Time).Add"] = func(it *Interp, fr *frame, cc *ssa.CallCommon, a []Value) Value {
+		t := a[0].(*Agg)
+		d := a[1].(*Term)
+		if d.IsConst() && d.Val == 0 {
+			return t
+		}
+		return it.freshTime(fmt.Sprintf("%s+%d", it.timeKey(t), d.ID))
+	}
+	s["(time.Time).Format"] = func(it *Interp, fr *frame, cc *ssa.CallCommon, a []Value) Value {
+		t := a[0].(*Agg)
+		layout, ok := it.concreteStr(a[1].(*Str))
+		if !ok {
+			return it.opaqueStr("time.Format")
+		}
+		var parts []*Str
+		i := 0
+		for i < len(layout) {
+			if i+2 <= len(layout) {
+				var f string
+				switch layout[i : i+2] {
+				case "06":
+					f = "year2"
+				case "01":
+					f = "month"
+				case "02":
+					f = "day"
+				case "15":
+					f = "hour"
+				case "04":
+					f = "minute"
+				case "05":
+					f = "second"
+				}
+				if f != "" {
+					r := timeFields[f]
+					parts = append(parts, it.formatInt(it.timeField(t, f, r[0], r[1]), false, 2, true))
+					i += 2
+					continue
+				}
+			}
+			c := layout[i]
+			if c >= '0' && c <= '9' || c >= 'A' && c <= 'Z' || c >= 'a' && c <= 'z' {
+				return it.opaqueStr("time.Format:" + layout)
+			}
+			parts = append(parts, it.constStr(string(c)))
+			i++
+		}
+		if len(parts) == 0 {
+			return it.constStr("")
+		}
+		return it.strConcat(parts)
+	}
+	s["strconv.Atoi"] = func(it *Interp, fr *frame, cc *ssa.CallCommon, a []Value) Value {
+		x := a[0].(*Str)
+		if cs, ok := it.concreteStr(x); ok {
+			v, err := strconv.Atoi(cs)
+			if err != nil {
+				return Tuple{it.c64(0), it.newError("strconv.Atoi: parsing " + strconv.Quote(cs) + ": invalid syntax")}
+			}
+			return Tuple{it.c64(int64(v)), it.nilError()}
+		}
+		n := int(it.concretize(x.Len))
+		if n == 0 || n > 18 {
+			return Tuple{it.c64(0), it.newError("strconv.Atoi: invalid syntax")}
+		}
+		v := it.viewStr(x)
+		valid := it.St.T
+		sum := it.c64(0)
+		for i := 0; i < n; i++ {
+			c := it.cellAtI(v, i)
+			valid = it.St.And(valid, it.between(c, '0', '9'))
+			sum = it.St.Add(it.St.Mul(sum, it.c64(10)), it.St.Zext(it.St.Sub(c, it.St.Const(8, '0')), 64))
+		}
+		if it.branchOrConst(valid) {
+			return Tuple{sum, it.nilError()}
+		}
+		return Tuple{it.c64(0), it.newError("strconv.Atoi: invalid syntax")}
+	}
+	s["strconv.Itoa"] = func(it *Interp, fr *frame, cc *ssa.CallCommon, a []Value) Value {
+		return it.formatInt(a[0].(*Term), true, 0, false)
+	}
+	s["strconv.FormatUint"] = func(it *Interp, fr *frame, cc *ssa.CallCommon, a []Value) Value {
+		base := a[1].(*Term)
+		if !base.IsConst() || base.Val != 10 {
+			return it.opaqueStr("FormatUint")
+		}
+		return it.formatInt(a[0].(*Term), false, 0, false)
+	}
 }
